@@ -4,7 +4,7 @@ import ast
 
 from .. import AnalysisError
 from ..cfg import ALL_KINDS, NORMAL_KINDS, iter_own
-from ..lib import attr_stores, both_orders, dominated_by, guard_forms, key_of, norm, render, type_is
+from ..lib import attr_stores, both_orders, dominated_by, guard_forms, key_of, norm, reachable_from, render, type_is
 from ..report import describe, rule
 from .common import expand_cmd, spawn_sites
 
@@ -266,3 +266,61 @@ def c15_7(ctx, r):
     r.check({ctx.src(n.ast.value) for n in init} == {"Status.GOOD", "Status.ERROR"}, "result is GOOD unless jobs are missing", key_of(hc, "result values"), hc.loc(), f"result takes {sorted({ctx.src(n.ast.value) for n in init})}")
     rets = [n for n in cfg.nodes if n.kind == "stmt" and isinstance(n.ast, ast.Return)]
     r.check(all(ctx.src(n.ast.value) == "result" for n in rets), "_handle_completion returns that status", key_of(hc, "return"), hc.loc(), "return value changed")
+
+
+@rule(P, "C15.8", "T2+T8", "auto-config: the stale stage config is removed before the generator runs, and that same file is what is checked and copied", min_obligations=3)
+def c15_8(ctx, r):
+    fn = ctx.fn("PipelineManager._run_auto_config", "C15.8")
+    cfg = ctx.cfg(fn)
+    gen = [n for n in cfg.nodes for c in cfg.calls_at(n) if ctx.src(c.func).split(".")[-1] in ("run_command", "check_run_command") and c.args and "auto_config_cmd" in ctx.src(c.args[0])]
+    if len(gen) != 1:
+        raise AnalysisError("C15.8", f"expected one generator call in _run_auto_config, found {len(gen)}")
+    g = gen[0]
+
+    def path_of(call, node):
+        a = call.args[0] if call.args else None
+        a = ctx.guards(fn).expand(a, node) if isinstance(a, ast.Name) else a
+        return render(ctx, fn, a) if a is not None else None
+
+    removed = [(n, path_of(c, n)) for n in cfg.nodes for c in cfg.calls_at(n) if ctx.src(c.func) in ("os.remove", "os.unlink")]
+    checked = [(n, path_of(c, n)) for n in cfg.nodes if n.kind == "test" for c in cfg.calls_at(n) if ctx.src(c.func) == "os.path.exists"]
+    copied = [(n, path_of(c, n)) for n in cfg.nodes for c in cfg.calls_at(n) if ctx.src(c.func).split(".")[-1] in ("copyfile", "copy", "copy2", "move")]
+    after = reachable_from(ctx, fn, g, NORMAL_KINDS)
+    post_checks = [p for n, p in checked if n.id in after]
+    pre_removed = [p for n, p in removed if n.id not in after]
+    srcs = [p for n, p in copied if n.id in after]
+    if not post_checks or not srcs:
+        raise AnalysisError("C15.8", f"post-generator existence check ({post_checks}) / copy ({srcs}) not found")
+    produced = post_checks[0]
+    r.check(produced in pre_removed, "the file expected from the generator is removed before the generator runs", key_of(fn, f"stale config not removed: removes {pre_removed}"), fn.loc(g.stmt),
+            f"before running the generator _run_auto_config removes {pre_removed or 'nothing'}, but afterwards accepts `{produced}` if it exists: a file left by an earlier run (or written before stage k finished) passes for the "
+            "fresh configuration, so stage k+1 is submitted with a configuration that was not produced after stage k completed", "stage k+1 is configured and submitted only after stage k's submission is complete")
+    r.check(all(s == produced for s in srcs), "the file copied into the pipeline directory is the file the generator produced", key_of(fn, "copy source"), fn.loc(g.stmt), f"the generator's product is `{produced}` but {srcs} is copied")
+    r.check(all(dominated_by(ctx, fn, n, [g]) for n, p in copied), "the copy follows the generator", key_of(fn, "copy order"), fn.loc(), "the stage config is copied before the generator ran")
+
+
+@rule(P, "C15.9", "T1", "`jade pipeline submit` never starts over on an existing pipeline directory (each stage is submitted exactly once)", min_obligations=1)
+def c15_9(ctx, r):
+    fn = ctx.fn("pipeline.submit", "C15.9")
+    cfg = ctx.cfg(fn)
+    creates = [n for s in ctx.sites(fn, short="PipelineManager.create") for n in ctx.nodes_of(fn, s.node)]
+    if not creates:
+        raise AnalysisError("C15.9", "pipeline submit no longer calls PipelineManager.create")
+    wipes = {n.id for n in cfg.nodes for c in cfg.calls_at(n) if ctx.src(c.func) in ("shutil.rmtree",)}
+    # forward search from the entry that refuses to cross (a) the 'does not exist' edge of os.path.exists(output), (b) a wipe
+    seen, stack = set(), [cfg.entry]
+    while stack:
+        n = stack.pop()
+        if n.id in seen or n.id in wipes:
+            continue
+        seen.add(n.id)
+        for d, k, c in n.succ:
+            if k in ("T", "F") and c is not None and "os.path.exists(output)" in ctx.src(c).replace(" ", ""):
+                form, pol = norm(ctx, fn, c, n, pol=(k == "T"))
+                if "os.path.exists(output)" in form and pol is False:
+                    continue
+            stack.append(d)
+    for c in creates:
+        r.check(c.id not in seen, "PipelineManager.create only on a fresh (absent or just wiped) output directory", key_of(fn, "create on an existing pipeline directory"), fn.loc(c.stmt),
+                "PipelineManager.create is reachable with the output directory existing and not wiped: a repeated `jade pipeline submit` resets pipeline.json to stage 1 and submits every stage again",
+                "each stage is submitted exactly once")
